@@ -37,6 +37,8 @@ FM = [
     ('FK-Othernull', F('x', 'FK', to='va.Other', null=True)),
     ('FK-Third', F('x', 'FK', to='va.Third', null=True)),
     ('O2O-Othernull', F('x', 'O2O', to='va.Other', null=True)),
+    ('FK-Othernull-noidx', F('x', 'FK', to='va.Other', null=True,
+                             db_index=False)),
     ('M2M-Other', F('x', 'M2M', to='va.Other')),
     ('M2M-Other-tbl', F('x', 'M2M', to='va.Other', db_table='custom_m2m')),
     ('absent', None),
@@ -69,6 +71,20 @@ MMX = list(starts.MM) + [
         {'type': 'check', 'name': 'ck_b', 'check': [['b__gte', 0]]}]}),
     ('ut+idx', {'unique_together': [['a', 'b']],
                 'indexes': [{'fields': ['c']}]}),
+    ('ut1', {'unique_together': [['a']]}),
+    ('it1', {'index_together': [['a']]}),
+    ('ut1+ut2', {'unique_together': [['a'], ['b', 'c']]}),
+]
+
+# extra start specs for the successor pairs: together-entries of one field
+# (a neighbouring field can be deleted without touching the entry)
+EXTRA_STARTS = [
+    ('X-ut1', P(A('va', [M('Item', S.clone(starts.FIELDSETS['V1']),
+                           unique_together=[['a']])]))),
+    ('X-it1', P(A('va', [M('Item', S.clone(starts.FIELDSETS['V1']),
+                           index_together=[['a']])]))),
+    ('X-ut1+ut2', P(A('va', [M('Item', S.clone(starts.FIELDSETS['V1']),
+                               unique_together=[['a'], ['b', 'c']])]))),
 ]
 
 
@@ -160,9 +176,75 @@ def eq_vs_diff(a, b, kind, replay, add, stats):
             replay, {'error': str(e)[:200]})
         return
     if eq != empty:
-        add('C05|eq-disagrees-with-diff|%s|%s' % (
+        add('C05|eq-disagrees-with-diff|%s|%s|%s' % (
             'equal-but-diff-non-empty' if eq else
-            'diff-empty-but-not-equal', kind), replay, {})
+            'diff-empty-but-not-equal', kind, sig_delta(a, b)), replay, {})
+
+
+def sig_delta(a, b):
+    """Where do the two serialised signatures differ?  Abstract paths
+    (names of apps/models/fields erased), e.g. 'fields.*.field_attrs.null'
+    or 'meta.db_table' - the root-cause part of an eq-vs-diff
+    fingerprint."""
+    out = set()
+
+    def walk(x, y, path):
+        if isinstance(x, dict) and isinstance(y, dict):
+            for k in sorted(set(x) | set(y), key=str):
+                if k not in x or k not in y:
+                    present = x.get(k, y.get(k))
+                    if isinstance(present, dict) and present:
+                        walk(x.get(k, {}), y.get(k, {}), path + [str(k)])
+                    else:
+                        out.add('%s=%r:only-one-side' % (
+                            '.'.join(path + [str(k)]), present))
+                else:
+                    walk(x[k], y[k], path + [str(k)])
+        elif isinstance(x, (list, tuple)) and isinstance(y, (list, tuple)):
+            if len(x) != len(y):
+                out.add('.'.join(path) + ':length')
+            elif list(x) != list(y):
+                if sorted(map(repr, x)) == sorted(map(repr, y)):
+                    out.add('.'.join(path) + ':order')
+                else:
+                    for i, (p, q) in enumerate(zip(x, y)):
+                        walk(p, q, path + ['[]'])
+        elif x != y:
+            out.add('.'.join(path))
+    try:
+        sa, sb = a.serialize(), b.serialize()
+    except Exception:
+        return 'delta:unserialisable'
+    for app in sorted(set(sa.get('apps', {})) | set(sb.get('apps', {}))):
+        xa = sa.get('apps', {}).get(app)
+        xb = sb.get('apps', {}).get(app)
+        if xa is None or xb is None:
+            out.add('app:only-one-side')
+            continue
+        for k in sorted(set(xa) | set(xb)):
+            if k != 'models':
+                if xa.get(k) != xb.get(k):
+                    out.add('app.' + k)
+                continue
+            ma, mb = xa.get('models', {}), xb.get('models', {})
+            for mn in sorted(set(ma) | set(mb)):
+                if mn not in ma or mn not in mb:
+                    out.add('model:only-one-side')
+                    continue
+                for mk in sorted(set(ma[mn]) | set(mb[mn])):
+                    va, vb = ma[mn].get(mk), mb[mn].get(mk)
+                    if mk == 'fields' and isinstance(va, dict) and \
+                            isinstance(vb, dict):
+                        for fn in sorted(set(va) | set(vb)):
+                            if fn not in va or fn not in vb:
+                                out.add('field:only-one-side')
+                            else:
+                                ft = str(va[fn].get('type', '')).split(
+                                    '.')[-1]
+                                walk(va[fn], vb[fn], ['fields.' + ft])
+                    elif va != vb:
+                        walk(va, vb, [mk])
+    return 'delta:' + ','.join(sorted(out)) if out else 'delta:none'
 
 
 def hint_shape(hint):
@@ -201,6 +283,13 @@ def variants():
     b = base([FieldSignature('x', models.ForeignKey, {'db_index': True},
                              related_model='va.Item')])
     out.append(('explicit-default:fk-db_index', a, b))
+    # NOT a representation variant: a relation without its index differs
+    # from the default (equality and difference must agree on that)
+    for cls in (models.ForeignKey, models.OneToOneField):
+        a = base([FieldSignature('x', cls, {}, related_model='va.Item')])
+        b = base([FieldSignature('x', cls, {'db_index': False},
+                                 related_model='va.Item')])
+        out.append(('non-default:%s-db_index-False' % cls.__name__, a, b))
     for prop in ('unique_together', 'index_together'):
         a, b = base(), base()
         setattr(list(list(a.app_sigs)[0].model_sigs)[0], prop, [('a', 'b')])
@@ -279,7 +368,7 @@ def run(tier, seed, confirm=True):
     tasks = [('fm', i) for i in range(len(FM))] + \
         [('mm', i) for i in range(len(MMX))] + [('variants', None)]
     level = 'lite' if tier == 'quick' else 'full'
-    for name, p in starts.s1() + starts.s2() + starts.s3():
+    for name, p in starts.s1() + starts.s2() + starts.s3() + EXTRA_STARTS:
         tasks.append(('succ', (name, p, level)))
     total = {}
     coll = findings.Collector(PROP)
